@@ -26,3 +26,16 @@ Theorem C01_error_no_effect : forall s,
   (forall ops s', tx_commit s ops = (s', WrOverflow) -> s' = s).
 Proof. exact EngineProofs.C01_error_no_effect. Qed.
 Print Assumptions C01_error_no_effect.
+
+(* the SSTables of a run without a reopen: each strictly ascending in key, layer recency in
+   list order (key_asc, recency, tabs_of are defined in EngineProofs.v, Part F) *)
+Theorem C01_ssts_agree : forall c ops,
+  Forall (fun o => o <> OReopen) ops ->
+  Forall key_asc (tabs_of (run c ops)) /\ recency (tabs_of (run c ops)).
+Proof. exact EngineProofs.ssts_agree. Qed.
+Print Assumptions C01_ssts_agree.
+
+Theorem C01_ssts_agree_reopen_refuted : exists c ops,
+  lost_log (run c ops) = false /\ ~ recency (tabs_of (run c ops)).
+Proof. exact EngineProofs.ssts_agree_reopen_refuted. Qed.
+Print Assumptions C01_ssts_agree_reopen_refuted.
